@@ -508,6 +508,11 @@ namespace avel {
     }
 
     [[nodiscard]]
+    AVEL_FINL vec16x32f byteswap(vec16x32f v) {
+        return bit_cast<vec16x32f>(byteswap(bit_cast<vec16x32u>(v)));
+    }
+
+    [[nodiscard]]
     AVEL_FINL vec16x32f max(vec16x32f a, vec16x32f b) {
         return vec16x32f{_mm512_max_ps(decay(b), decay(a))};
     }
